@@ -8,7 +8,7 @@
 //!
 //! Configurations (enumerated completely): heights 1..=N; every monotone age profile
 //! (the `old` lowest heights are 25 h old, the next `mid` 15 h, the rest 5 h; windows are 10 h
-//! and 20 h so every header is >= 5 h away from a window edge); window order pruning < sampling,
+//! and 20 h so every header is more than 4 h away from a window edge); window order pruning < sampling,
 //! pruning = sampling (no `mid` heights), pruning > sampling; every assignment of
 //! {never synced, pruned earlier, stored unsampled, stored sampled} to the heights (at least one
 //! stored); two sampling-metadata layouts (heights alternately carry two CIDs — one present in
@@ -138,8 +138,10 @@ fn main() {
     let now = Time::now();
     let mut rep = Report::new();
     let tot = Totals::default();
-    let n: usize = ctx.tier.pick(6, 8);
-    let bound: usize = ctx.tier.pick(2, 3);
+    // stages: (heights, deviation bound, cache refresh modes)
+    const ONLY_REFRESH: &[bool] = &[true];
+    const BOTH: &[bool] = &[true, false];
+    let stages: Vec<(usize, usize, &[bool])> = ctx.tier.pick(vec![(6, 2, ONLY_REFRESH)], vec![(7, 3, BOTH), (8, 2, ONLY_REFRESH)]);
 
     if let Some(c) = ctx.replay_case() {
         let labels = c["labels"].as_array().cloned().unwrap_or_default();
@@ -162,62 +164,75 @@ fn main() {
             rep.violation(&k, what, json!({"choices": out.exec.taken, "labels": out.exec.labels}));
         }
     } else {
-        let chains = Chains::build(n, now);
         let wall_cap = Duration::from_secs(ctx.tier.pick(420, 2400));
         let t0 = std::time::Instant::now();
-        // outer tasks: (order, old, mid, layout, refresh, status of the two highest heights)
-        let mut tasks: Vec<(Order, usize, usize, u8, bool, u32)> = vec![];
-        let refresh_modes: &[bool] = ctx.tier.pick(&[true][..], &[true, false][..]);
-        for order in [Order::PruningSmaller, Order::Equal, Order::PruningLarger] {
-            for old in 0..=n {
-                for mid in 0..=n - old {
-                    if order == Order::Equal && mid != 0 {
-                        continue;
-                    }
-                    for layout in 0..2u8 {
-                        for &refresh in refresh_modes {
-                            for top in 0..16u32 {
-                                tasks.push((order, old, mid, layout, refresh, top));
+        let machinery: std::sync::Mutex<Option<String>> = std::sync::Mutex::new(None);
+        let mut stages_done: Vec<serde_json::Value> = vec![];
+        for (si, &(n, bound, refresh_modes)) in stages.iter().enumerate() {
+            let chains = Chains::build(n, now);
+            let configs_before = tot.configs.load(Ordering::Relaxed);
+            let execs_before = tot.execs.load(Ordering::Relaxed);
+            // outer tasks: (order, old, mid, layout, refresh, status of the two highest heights)
+            let mut tasks: Vec<(Order, usize, usize, u8, bool, u32)> = vec![];
+            for order in [Order::PruningSmaller, Order::Equal, Order::PruningLarger] {
+                for old in 0..=n {
+                    for mid in 0..=n - old {
+                        if order == Order::Equal && mid != 0 {
+                            continue;
+                        }
+                        for layout in 0..2u8 {
+                            for &refresh in refresh_modes {
+                                for top in 0..16u32 {
+                                    tasks.push((order, old, mid, layout, refresh, top));
+                                }
                             }
                         }
                     }
                 }
             }
+            let capped = std::sync::atomic::AtomicBool::new(false);
+            let low_bits = 2 * (n as u32 - 2);
+            let r = tasks
+                .into_par_iter()
+                .fold(Report::new, |mut rep, (order, old, mid, layout, refresh, top)| {
+                    for low in 0..(1u32 << low_bits) {
+                        if machinery.lock().unwrap().is_some() {
+                            break;
+                        }
+                        if t0.elapsed() > wall_cap {
+                            capped.store(true, Ordering::Relaxed);
+                            break;
+                        }
+                        let code = low | top << low_bits;
+                        let status = status_of(code, n);
+                        if !status.iter().any(|s| matches!(s, St::Unsampled | St::Sampled)) {
+                            continue; // nothing stored: nothing can be removed
+                        }
+                        let cfg = Config { n, order, old, mid, status, meta_layout: layout, refresh };
+                        if let Err(e) = check_config(&cfg, &chains, bound, &tot, &mut rep, wall_cap.saturating_sub(t0.elapsed())) {
+                            *machinery.lock().unwrap() = Some(e);
+                            break;
+                        }
+                    }
+                    rep
+                })
+                .reduce(Report::new, Report::merge);
+            rep.merge_in(r);
+            let complete = !capped.load(Ordering::Relaxed) && rep.caps_hit.is_empty();
+            stages_done.push(json!({
+                "stage": si, "heights": n, "deviation_bound": bound, "cache_refresh_modes": refresh_modes,
+                "configurations": tot.configs.load(Ordering::Relaxed) - configs_before,
+                "executions": tot.execs.load(Ordering::Relaxed) - execs_before,
+                "complete": complete,
+            }));
+            if !complete {
+                rep.cap_hit(&format!("C35 wall cap in stage {si} (heights 1..={n}): not every configuration was run"));
+                break;
+            }
         }
-        let machinery: std::sync::Mutex<Option<String>> = std::sync::Mutex::new(None);
-        let capped = std::sync::atomic::AtomicBool::new(false);
-        let low_bits = 2 * (n as u32 - 2);
-        let r = tasks
-            .into_par_iter()
-            .fold(Report::new, |mut rep, (order, old, mid, layout, refresh, top)| {
-                for low in 0..(1u32 << low_bits) {
-                    if machinery.lock().unwrap().is_some() {
-                        break;
-                    }
-                    if t0.elapsed() > wall_cap {
-                        capped.store(true, Ordering::Relaxed);
-                        break;
-                    }
-                    let code = low | top << low_bits;
-                    let status = status_of(code, n);
-                    if !status.iter().any(|s| matches!(s, St::Unsampled | St::Sampled)) {
-                        continue; // nothing stored: nothing can be removed
-                    }
-                    let cfg = Config { n, order, old, mid, status, meta_layout: layout, refresh };
-                    if let Err(e) = check_config(&cfg, &chains, bound, &tot, &mut rep, wall_cap.saturating_sub(t0.elapsed())) {
-                        *machinery.lock().unwrap() = Some(e);
-                        break;
-                    }
-                }
-                rep
-            })
-            .reduce(Report::new, Report::merge);
+        rep.extra("stages", json!(stages_done));
         if let Some(m) = machinery.into_inner().unwrap() {
             machinery_error(&ctx.id, &m);
-        }
-        rep.merge_in(r);
-        if capped.load(Ordering::Relaxed) {
-            rep.cap_hit("C35 wall cap: not every configuration was run");
         }
         let g = |a: &AtomicU64| a.load(Ordering::Relaxed);
         rep.extra("configurations", json!(g(&tot.configs)));
@@ -225,7 +240,6 @@ fn main() {
         rep.extra("distinct_nontrivial_by_construction", json!(g(&tot.configs_with_candidates)));
         rep.extra("configurations_with_daser_questions", json!(g(&tot.configs_with_questions)));
         rep.extra("executions_by_deviations", json!(tot.by_dev.iter().map(g).collect::<Vec<_>>()));
-        rep.extra("deviation_bound", json!(bound));
         rep.extra(
             "totals_over_executions",
             json!({
@@ -245,9 +259,9 @@ fn main() {
         &ctx,
         rep,
         Spec {
-            rule: "real Pruner worker over logging Store/Blockstore wrappers and the mocked Daser; configurations = heights 1..=N (N=6 quick, 8 thorough) x every monotone age profile (old/mid/new = 25 h/15 h/5 h against windows of 10 h and 20 h) x window order (pruning<sampling, =, >; '=' has no mid heights) x every assignment of {gap, pruned, stored-unsampled, stored-sampled} to the heights with at least one stored x 2 CID metadata layouts x cache refresh {every iteration; thorough also: once}; per configuration every execution with at most `deviation_bound` (2 quick, 3 thorough) refused WantToPrune answers over 3 pruner iterations (explore_deviations; configurations in which no question is asked have exactly one execution). traces = executions, states = distinct (configuration, removal/CID/answer log) traces, transitions = logged events. non-trivial = configurations with a stored header outside the pruning window. Oracle per remove_height in the log: outside the pruning window; inside the sampling window only if sampled and not bordering an unsynced gap; latest Daser answer not a refusal and unsampled headers granted; all metadata CIDs removed from the blockstore earlier.",
+            rule: "real Pruner worker over logging Store/Blockstore wrappers and the mocked Daser; configurations = heights 1..=N (quick: N=6, <=2 refusals; thorough: stage 0 N=7, <=3 refusals, both cache modes, then stage 1 N=8, <=2 refusals, cache refreshed every iteration) x every monotone age profile (old/mid/new = 25 h/15 h/5 h against windows of 10 h and 20 h) x window order (pruning<sampling, =, >; '=' has no mid heights) x every assignment of {gap, pruned, stored-unsampled, stored-sampled} to the heights with at least one stored x 2 CID metadata layouts x cache refresh {every iteration; thorough stage 0 also: once}; per configuration every execution with at most the stage's bound of refused WantToPrune answers over 3 pruner iterations (explore_deviations; configurations in which no question is asked have exactly one execution). traces = executions, states = distinct (configuration, removal/CID/answer log) traces, transitions = logged events. non-trivial = configurations with a stored header outside the pruning window. Oracle per remove_height in the log: outside the pruning window; inside the sampling window only if sampled and not bordering an unsynced gap; latest Daser answer not a refusal and unsampled headers granted; all metadata CIDs removed from the blockstore earlier.",
             assumptions: &[
-                "Time::now() cannot be seamed: every header is >= 5 h away from both window edges, so the exact boundary instant (< vs <=) is not checked",
+                "Time::now() cannot be seamed: every header is more than 4 h away from both window edges, so the exact boundary instant (< vs <=) is not checked",
                 "block_time = 1 ns stands for the design's block_time = 0 (0 makes the idle pruner spin without yielding, which would starve the paused-clock runtime); std Instant elapsed() is then never below the refresh threshold",
                 "the pruner is stopped when its 4th iteration starts; a question pending at that moment is dropped unanswered",
                 "MAX_PRUNABLE_BATCH_SIZE (512) is not reached with 8 heights",
